@@ -218,6 +218,26 @@ static void run_query(Out& out, const std::string& id, const std::string& payloa
             verdict = "FAIL extrema:bbox the extrema do not span the bounding box of the offsets";
         }
     }
+    // both functions APPEND to the array they are given (callers gather several repetitions into one array): entries that are
+    // already there must survive, and what is appended must be what a fresh array receives
+    if (verdict == "ok") {
+        static const Vec2 marks[3] = {{12345.5, -777.25}, {-3.0, 4096.0}, {0.125, 0.0}};
+        for (int pre = 1; pre <= 3 && verdict == "ok"; pre += 2) {
+            for (int which = 0; which < 2 && verdict == "ok"; which++) {
+                Array<Vec2> acc = {};
+                for (int k = 0; k < pre; k++) acc.append(marks[k]);
+                if (which == 0) r.get_offsets(acc); else r.get_extrema(acc);
+                const Array<Vec2>& fresh = which == 0 ? off : ext;
+                bool good = acc.count == (uint64_t)pre + fresh.count;
+                for (int k = 0; good && k < pre; k++) good = acc[k].x == marks[k].x && acc[k].y == marks[k].y;
+                for (uint64_t k = 0; good && k < fresh.count; k++) good = acc[pre + k].x == fresh[k].x && acc[pre + k].y == fresh[k].y;
+                if (!good)
+                    verdict = which == 0 ? "FAIL offsets:append get_offsets into an array that already holds entries does not append the offsets of a fresh call"
+                                         : "FAIL extrema:append get_extrema into an array that already holds entries does not append the extrema of a fresh call";
+                acc.clear();
+            }
+        }
+    }
     out.P(id, verdict);
     off.clear();
     ext.clear();
